@@ -2,15 +2,16 @@ package durable
 
 // C03 harness, state-handler level (injected by `go test -overlay`; lives in /verif).
 //
-// The master's durable StateHandler is the application-side user of Propose / ProposeIfTerm / VerifyRead
-// (handler.go). Real 3-5 member groups of StateHandlers on the in-process Raft (raft.VerifNewCluster: mem transport
-// + the repo's dropper / duplicator / reorder), clients call the handler API only:
-//   NewPartition(curator, term)   - term-conditional write; its result (the new partition id) reveals its place;
-//   GetPartitions(curator)        - verified read (VerifyRead, then local state): reveals how many were applied;
-//   Lookup(partition)             - verified read of one element.
+// GENERATED from zz_verif_c03m_test.go (the master variant) by gen_c03c.py; same harness, other API.
+// The curator's durable StateHandler (handler.go: readOK -> VerifyRead before every linearizable read). Real 3-5
+// member groups of StateHandlers (each on its own boltdb file) on the in-process Raft, clients call the handler API only:
+//   CreateBlob(repl, now, expires, hint, term) - term-conditional write; the blob key in the returned id reveals its place;
+//   GetFreeSpace()                              - verified read (readOK, then local state): reveals how many were created;
+//   LinearizableReadOnlyTxn + GetBlob           - verified read of one element;
+//   AddPartition(id, term) / GetCuratorInfo()   - a second write / verified read pair (freshness monitor only).
 // Leaders are isolated long enough (> core.ProposalTimeout) for the handlers' timeout paths to run, reads are also
 // sent to followers and deposed leaders. The history is judged by the same extracted Coq checker as the raft-level
-// histories (the agreed log is synthesised from the returned partition ids: position p = the acknowledged call that
+// histories (the agreed log is synthesised from the returned blob keys: position p = the acknowledged call that
 // got id p, or a placeholder indefinite write), plus Go monitors.
 
 import (
@@ -39,8 +40,8 @@ const (
 	mWrite  = 2 // reported as kind 2 (ProposeIfTerm)
 	mRead   = 3
 	mLookup = 4 // Go monitor only
-	mAuxW   = 5 // a second kind of write (RegisterCurator), Go monitor only
-	mAuxR   = 6 // a verified read that must see it (ValidateCuratorID), Go monitor only
+	mAuxW   = 5 // a second kind of write (AddPartition), Go monitor only
+	mAuxR   = 6 // a verified read that must see it (GetCuratorInfo), Go monitor only
 
 	mOk    = 1
 	mDef   = 2
@@ -54,7 +55,7 @@ type mOp struct {
 	Inv      int64  `json:"i"`
 	Ret      int64  `json:"r"`
 	Out      int    `json:"o"`
-	R1       int64  `json:"r1"` // write: partition id; read: number of partitions; lookup: the partition asked for
+	R1       int64  `json:"r1"` // write: blob key; read: number of partitions; lookup: the partition asked for
 	Term     int64  `json:"t"`
 	BadTerm  bool   `json:"bad_term,omitempty"` // the call named a term that no leader can have
 	Err      string `json:"e,omitempty"`
@@ -99,8 +100,8 @@ func mClassify(err core.Error) (int, string) {
 }
 
 func mRunCluster(idx int) *mResult {
-	rng := vw.NewRng(vw.Seed()).Fork(uint64(500000 + idx))
-	id := "m" + strconv.Itoa(idx)
+	rng := vw.NewRng(vw.Seed()).Fork(uint64(700000 + idx))
+	id := "cu" + strconv.Itoa(idx)
 	res := &mResult{Case: id, Stats: map[string]int64{}}
 	report := func(sig, what string, detail map[string]interface{}) {
 		for _, v := range res.Viol {
@@ -123,10 +124,10 @@ func mRunCluster(idx int) *mResult {
 	cfgs := make([]raft.Config, n)
 	seeds := map[string]int64{}
 	for i := range cfgs {
-		name := "m" + strconv.Itoa(i)
+		name := "cu" + strconv.Itoa(i)
 		seeds[name] = int64(rng.U64() >> 1)
 		cfgs[i] = raft.Config{
-			ID: name, ClusterID: "c03m-" + id, FollowerTimeout: follower, CandidateTimeout: uint32(rng.Range(8, 14)),
+			ID: name, ClusterID: "c03c-" + id, FollowerTimeout: follower, CandidateTimeout: uint32(rng.Range(8, 14)),
 			HeartbeatTimeout: 2, RandomElectionRange: uint32(rng.Range(4, 10)), LeaderStepdownTimeout: stepdown,
 			SnapshotTimeout: 50, DurationPerTick: tick, MaxNumEntsPerAppEnts: 10,
 			MaximumProposalBatch: uint32(rng.PickInt(1, 4, 16)),
@@ -139,7 +140,9 @@ func mRunCluster(idx int) *mResult {
 	hs := make([]*StateHandler, n)
 	members := make([]string, n)
 	for i := range hs {
-		hs[i] = NewStateHandler(&StateConfig{Config: cfgs[i]}, cl.Nodes[i])
+		dir := filepath.Join(os.Getenv("VERIF_C03C_DIR"), id+"-"+strconv.Itoa(i))
+		os.MkdirAll(dir, 0o755)
+		hs[i] = NewStateHandler(&StateConfig{Config: cfgs[i], DBDir: dir, OnLeadershipChange: func(bool) {}}, cl.Nodes[i])
 		members[i] = cfgs[i].ID
 	}
 	for _, h := range hs {
@@ -159,22 +162,37 @@ func mRunCluster(idx int) *mResult {
 	for len(leaders()) == 0 && time.Since(t0) < 10*time.Second {
 		time.Sleep(time.Millisecond)
 	}
-	// one curator to hang the partitions on
+	// registration and one partition to create the blobs in (the lowest id, so that it stays the one blobs go to)
 	var curator core.CuratorID
+	const part = core.PartitionID(7)
 	for try := 0; try < 200 && curator == 0; try++ {
 		ls := leaders()
 		if len(ls) == 0 {
 			time.Sleep(5 * time.Millisecond)
 			continue
 		}
-		if c, err := hs[ls[0]].RegisterCurator(0); err == core.NoError {
-			curator = c
+		if _, err := hs[ls[0]].Register(core.CuratorID(1)); err != core.NoError {
+			continue
+		}
+		if err := hs[ls[0]].AddPartition(part, 0); err == core.NoError {
+			curator = 1
 		}
 	}
 	if curator == 0 {
-		res.Stats["m_no_bootstrap"]++
+		res.Stats["cu_no_bootstrap"]++
 		return res
 	}
+	countOf := func(h *StateHandler) int64 {
+		txn := h.LocalReadOnlyTxn()
+		defer txn.Commit()
+		for _, p := range txn.GetPartitions() {
+			if p.ID == part {
+				return int64(p.P.NextBlobKey()) - 1
+			}
+		}
+		return 0
+	}
+	var auxSeq int64
 
 	var clock, nextID int64
 	var mu sync.Mutex
@@ -203,7 +221,8 @@ func mRunCluster(idx int) *mResult {
 		}
 		op.Term = int64(term)
 		op.Inv = stamp()
-		p, err := hs[node].NewPartition(curator, term)
+		bid, err := hs[node].CreateBlob(3, 1, 0, core.StorageHintDEFAULT, term)
+		p := int64(bid.ID())
 		var unknown string
 		op.Out, unknown = mClassify(err)
 		op.Err = unknown
@@ -217,7 +236,7 @@ func mRunCluster(idx int) *mResult {
 			}
 		}
 		if op.Out == -1 {
-			report("handler/unexpected-error/newpartition/"+unknown, "NewPartition returned an error outside the documented classes",
+			report("curator-handler/unexpected-error/createblob/"+unknown, "CreateBlob returned an error outside the documented classes",
 				map[string]interface{}{"op": op})
 			op.Out = mIndef
 		}
@@ -227,21 +246,18 @@ func mRunCluster(idx int) *mResult {
 	doRead := func(node int) {
 		op := newOp(mRead, node)
 		op.Inv = stamp()
-		parts, err := hs[node].GetPartitions(curator)
+		free, err := hs[node].GetFreeSpace()
 		var unknown string
 		op.Out, unknown = mClassify(err)
 		op.Err = unknown
 		if op.Out == mOk {
-			op.R1 = int64(len(parts))
+			// free = sum over the P partitions of (MaxBlobKey - NextBlobKey); all but partition 7 are empty (next = 1)
+			np := free/uint64(core.MaxBlobKey) + 1
+			op.R1 = int64(np*uint64(core.MaxBlobKey) - free - np)
 			op.ListOK = true
-			for i, p := range parts {
-				if int64(p) != int64(i+1) {
-					op.ListOK = false
-				}
-			}
 		}
 		if op.Out == -1 {
-			report("handler/unexpected-error/getpartitions/"+unknown, "GetPartitions returned an error outside the documented classes",
+			report("curator-handler/unexpected-error/getfreespace/"+unknown, "GetFreeSpace returned an error outside the documented classes",
 				map[string]interface{}{"op": op})
 			op.Out = mIndef
 		}
@@ -258,12 +274,11 @@ func mRunCluster(idx int) *mResult {
 			op.R1 = 1
 		}
 		op.Inv = stamp()
-		c, err := hs[node].Lookup(core.PartitionID(op.R1))
+		txn, err := hs[node].LinearizableReadOnlyTxn()
 		switch err {
 		case core.NoError:
-			op.Out, op.Found = mOk, c == curator
-		case core.ErrNoSuchBlob:
-			op.Out, op.Found = mOk, false
+			op.Out, op.Found = mOk, txn.GetBlob(core.BlobIDFromParts(part, core.BlobKey(op.R1))) != nil
+			txn.Commit()
 		default:
 			op.Out, op.Err = mClassify(err)
 			if op.Out == -1 {
@@ -279,18 +294,20 @@ func mRunCluster(idx int) *mResult {
 	var auxMu sync.Mutex
 	var auxTokens []int64
 	auxWrite := func(h *StateHandler, term uint64) (int64, core.Error) {
-		c, err := h.RegisterCurator(term)
-		return int64(c), err
+		pid := core.PartitionID(1000 + atomic.AddInt64(&auxSeq, 1))
+		return int64(pid), h.AddPartition(pid, term)
 	}
 	auxRead := func(h *StateHandler, token int64) (bool, core.Error) {
-		switch err := h.ValidateCuratorID(core.CuratorID(token)); err {
-		case core.NoError:
-			return true, core.NoError
-		case core.ErrBadCuratorID:
-			return false, core.NoError
-		default:
+		_, parts, err := h.GetCuratorInfo()
+		if err != core.NoError {
 			return false, err
 		}
+		for _, p := range parts {
+			if int64(p) == token {
+				return true, core.NoError
+			}
+		}
+		return false, core.NoError
 	}
 	doAuxW := func(node int) {
 		op := newOp(mAuxW, node)
@@ -382,7 +399,7 @@ func mRunCluster(idx int) *mResult {
 			// keep one leader cut off for longer than the handlers' proposal timeout
 			if ls := leaders(); len(ls) > 0 {
 				isolate(ls[0])
-				res.Stats["m_long_isolation"]++
+				res.Stats["cu_long_isolation"]++
 				time.Sleep(2*core.ProposalTimeout + time.Duration(r.Range(500, 1000))*time.Millisecond)
 				cl.HealAll(dropP)
 			}
@@ -392,11 +409,11 @@ func mRunCluster(idx int) *mResult {
 			case 0, 1:
 				if ls := leaders(); len(ls) > 0 {
 					isolate(ls[r.Intn(len(ls))])
-					res.Stats["m_isolate_leader"]++
+					res.Stats["cu_isolate_leader"]++
 				}
 			case 2:
 				isolate(r.Intn(n)) // an isolated follower keeps answering (it must refuse verified reads)
-				res.Stats["m_isolate_node"]++
+				res.Stats["cu_isolate_node"]++
 			default:
 				cl.HealAll(dropP)
 			}
@@ -430,9 +447,7 @@ func mRunCluster(idx int) *mResult {
 	counts := make([]int64, n)
 	readCounts := func() {
 		for i, h := range hs {
-			h.lock.Lock()
-			counts[i] = int64(len(h.state.Partitions) - 1)
-			h.lock.Unlock()
+			counts[i] = countOf(h)
 		}
 	}
 	deadline = time.Now().Add(10 * time.Second)
@@ -472,17 +487,17 @@ func mRunCluster(idx int) *mResult {
 			continue
 		}
 		if prev, dup := claimed[op.R1]; dup {
-			report("handler/same-id-returned-twice", "two acknowledged NewPartition calls returned the same partition id",
+			report("curator-handler/same-id-returned-twice", "two acknowledged CreateBlob calls returned the same blob key",
 				map[string]interface{}{"a": prev, "b": op})
 			continue
 		}
 		claimed[op.R1] = op
 		if op.BadTerm {
-			report("handler/impossible-term-acknowledged", "a term-conditional call naming a term no leader had was acknowledged",
+			report("curator-handler/impossible-term-acknowledged", "a term-conditional call naming a term no leader had was acknowledged",
 				map[string]interface{}{"op": op})
 		}
 		if op.R1 > nL {
-			report("handler/acked-not-applied", "an acknowledged NewPartition is in no replica's state", map[string]interface{}{"op": op, "replica_counts": counts})
+			report("curator-handler/acked-not-applied", "an acknowledged CreateBlob is in no replica's state", map[string]interface{}{"op": op, "replica_counts": counts})
 		}
 	}
 	idAt := func(p int64) int64 {
@@ -502,7 +517,7 @@ func mRunCluster(idx int) *mResult {
 		}
 	}
 	if unclaimed > indefWrites {
-		report("handler/unexplained-partitions", "replicas hold more partitions than acknowledged plus indefinite calls can explain (a definitely rejected or phantom command was applied)",
+		report("curator-handler/unexplained-partitions", "replicas hold more partitions than acknowledged plus indefinite calls can explain (a definitely rejected or phantom command was applied)",
 			map[string]interface{}{"unclaimed": unclaimed, "indefinite_calls": indefWrites})
 	}
 	for _, op := range ops {
@@ -520,7 +535,7 @@ func mRunCluster(idx int) *mResult {
 			}
 			res.Lines = append(res.Lines, []int64{1, op.ID, 3, int64(op.Node), op.Inv, op.Ret, int64(out), op.R1, idAt(op.R1), 0, 0})
 			if op.Out == mOk && !op.ListOK {
-				report("handler/partition-list-not-a-prefix", "GetPartitions returned a list that is not 1..k", map[string]interface{}{"op": op})
+				report("curator-handler/partition-list-not-a-prefix", "GetFreeSpace returned a list that is not 1..k", map[string]interface{}{"op": op})
 			}
 		}
 	}
@@ -542,11 +557,11 @@ func mRunCluster(idx int) *mResult {
 				continue
 			}
 			if r.Kind == mRead && w.R1 > r.R1 {
-				report("handler/stale-verified-read/getpartitions", "GetPartitions misses a partition acknowledged before it was called",
+				report("curator-handler/stale-verified-read/getfreespace", "GetFreeSpace misses a partition acknowledged before it was called",
 					map[string]interface{}{"read": r, "missed": w})
 			}
 			if r.Kind == mLookup && w.R1 == r.R1 && !r.Found {
-				report("handler/stale-verified-read/lookup", "Lookup does not find a partition acknowledged before it was called",
+				report("curator-handler/stale-verified-read/lookup", "Lookup does not find a partition acknowledged before it was called",
 					map[string]interface{}{"read": r, "missed": w})
 			}
 		}
@@ -557,41 +572,41 @@ func mRunCluster(idx int) *mResult {
 		}
 		for _, w := range ops {
 			if w.Kind == mAuxW && w.Out == mOk && w.R1 == r.R1 && w.Ret < r.Inv {
-				report("handler/stale-verified-read/validatecuratorid", "ValidateCuratorID does not know a curator whose registration was acknowledged before it was called",
+				report("curator-handler/stale-verified-read/getcuratorinfo", "GetCuratorInfo does not know a curator whose registration was acknowledged before it was called",
 					map[string]interface{}{"read": r, "missed": w})
 			}
 		}
 	}
-	kinds := map[int]string{mWrite: "newpartition", mRead: "getpartitions", mLookup: "lookup", mAuxW: "registercurator", mAuxR: "validatecuratorid"}
+	kinds := map[int]string{mWrite: "createblob", mRead: "getfreespace", mLookup: "lookup", mAuxW: "addpartition", mAuxR: "getcuratorinfo"}
 	outs := map[int]string{1: "ok", 2: "definite_err", 3: "indefinite"}
 	for _, op := range ops {
-		res.Stats["m_"+kinds[op.Kind]+"_"+outs[op.Out]]++
+		res.Stats["cu_"+kinds[op.Kind]+"_"+outs[op.Out]]++
 		if op.Err != "" {
-			res.Stats["m_err_"+strings.ReplaceAll(op.Err, " ", "_")]++
+			res.Stats["cu_err_"+strings.ReplaceAll(op.Err, " ", "_")]++
 		}
 	}
-	res.Stats["m_clusters"]++
+	res.Stats["cu_clusters"]++
 	res.Finger = fmt.Sprintf("m n%d long%v ops%d parts%d", n, long, len(ops), nL)
-	res.Sample = fmt.Sprintf("case %s: master StateHandlers, %d members, long isolation %v, stepdown %d; %d handler calls, %d partitions, %d unclaimed positions",
+	res.Sample = fmt.Sprintf("case %s: curator StateHandlers, %d members, long isolation %v, stepdown %d; %d handler calls, %d partitions, %d unclaimed positions",
 		id, n, long, stepdown, len(ops), nL, unclaimed)
 	return res
 }
 
-func TestVerifC03M(t *testing.T) {
+func TestVerifC03C(t *testing.T) {
 	if !vw.Enabled() {
 		t.Skip("run through bin/check")
 	}
-	if c := os.Getenv("VERIF_C03M_CHILD"); c != "" {
+	if c := os.Getenv("VERIF_C03C_CHILD"); c != "" {
 		flag.Set("logtostderr", "true")
 		idx, _ := strconv.Atoi(c)
 		b, _ := json.Marshal(mRunCluster(idx))
-		if err := ioutil.WriteFile(os.Getenv("VERIF_C03M_RESULT"), b, 0o644); err != nil {
+		if err := ioutil.WriteFile(os.Getenv("VERIF_C03C_RESULT"), b, 0o644); err != nil {
 			t.Fatal(err)
 		}
 		return
 	}
 	ncases := vw.Scale(6, 150)
-	tmp, err := ioutil.TempDir("", "c03m")
+	tmp, err := ioutil.TempDir("", "c03c")
 	if err != nil {
 		t.Fatal(err)
 	}
@@ -601,7 +616,7 @@ func TestVerifC03M(t *testing.T) {
 	sem := make(chan struct{}, 10)
 	var wg sync.WaitGroup
 	for i := 0; i < ncases; i++ {
-		if !vw.CaseSelected("m" + strconv.Itoa(i)) {
+		if !vw.CaseSelected("cu" + strconv.Itoa(i)) {
 			continue
 		}
 		wg.Add(1)
@@ -610,8 +625,8 @@ func TestVerifC03M(t *testing.T) {
 			defer wg.Done()
 			defer func() { <-sem }()
 			out := filepath.Join(tmp, fmt.Sprintf("r%d.json", i))
-			cmd := exec.Command(os.Args[0], "-test.run", "^TestVerifC03M$", "-test.timeout", "180s")
-			cmd.Env = append(os.Environ(), "VERIF_C03M_CHILD="+strconv.Itoa(i), "VERIF_C03M_RESULT="+out)
+			cmd := exec.Command(os.Args[0], "-test.run", "^TestVerifC03C$", "-test.timeout", "180s")
+			cmd.Env = append(os.Environ(), "VERIF_C03C_CHILD="+strconv.Itoa(i), "VERIF_C03C_RESULT="+out, "VERIF_C03C_DIR="+tmp)
 			var buf bytes.Buffer
 			cmd.Stderr, cmd.Stdout = &buf, &buf
 			runErr := cmd.Run()
@@ -630,12 +645,12 @@ func TestVerifC03M(t *testing.T) {
 		}(i)
 	}
 	wg.Wait()
-	tr := vw.OpenTrace("C03M.trace")
+	tr := vw.OpenTrace("C03C.trace")
 	for i := 0; i < ncases; i++ {
-		id := "m" + strconv.Itoa(i)
+		id := "cu" + strconv.Itoa(i)
 		if crashes[i] != "" {
-			vw.Report(vw.Violation{Property: "C03", Signature: "handler/crash", Case: id,
-				What:   "the master state-handler group crashed or hung",
+			vw.Report(vw.Violation{Property: "C03", Signature: "curator-handler/crash", Case: id,
+				What:   "the curator state-handler group crashed or hung",
 				Detail: map[string]interface{}{"output": crashes[i]}})
 			continue
 		}
@@ -661,5 +676,5 @@ func TestVerifC03M(t *testing.T) {
 	}
 	tr.Close()
 	vw.Sample("(end of samples)")
-	vw.Finish("C03M")
+	vw.Finish("C03C")
 }
